@@ -39,6 +39,10 @@ Part 3 also declares outers whose Ref prototype is an INSTANCE: Ref(Inner(descri
 Ref(Inner(described=k inconsistent, tracked=v)) and Ref(Inner(tracked=v)), single and repeated.  Model: the inner of
 a default-constructed outer is a copy of the prototype, i.e. explicit exactly when the prototype was built with the
 described keyword; an inner produced by Outer.unpack(raw) ALWAYS starts automatic whatever the prototype says.
+Part 4 declares the described field POSITIONED: .at(2), .shift(1) after a tag byte, .aligned(4) after a tag byte, and a
+class with __bisturi__ = {'align': 2}; each under the three option sets, run through the single-packet histories
+(pure and observed mode, shorter bound).  The reference encoding places the bytes itself: the fill byte '.' in the
+gaps (absolute position, relative shift, padding to a multiple of the alignment counted from the start of the data).
 """
 import itertools
 import os
@@ -62,6 +66,9 @@ REQUIRED = (
     "nested_packs_after_outer_unpack", "nested_reads_compared",
     "nested_instance_prototype_histories", "nested_unpacked_inner_with_explicit_prototype",
     "nested_default_inner_explicit_from_prototype", "nested_unpacked_explicit_prototype_packs_after_tracked_change",
+    "positioned_described_histories", "positioned_described_generated_unpack_then_tracked_change",
+    "positioned_described_generic_unpack_then_tracked_change", "positioned_described_struct_coded_generated_unpack",
+    "positioned_described_packs_with_fill_bytes",
 )
 RULE = {
     "quick": "4 declarations (AutoLength over Data sized by the described field; the same with the described Int(2) inside "
@@ -74,12 +81,15 @@ RULE = {
              "sequence of length 1..3 over 7 operations, Ref(Inner).repeated(n) with two inners: every sequence of length 1..2 "
              "over 13 operations} x 3 starts (default/ctor, ctor with explicit inner, outer unpack), PK packs the outer packet; "
              "the same two outer shapes with an INSTANCE prototype (described keyword consistent / inconsistent / tracked keyword "
-             "only) x 2 starts (default-constructed or constructed outer, unpacked outer), same lengths. "
+             "only) x 2 starts (default-constructed or constructed outer, unpacked outer), same lengths; "
+             "Part 4 (positioned described field): 4 declarations (.at(2), .shift(1), .aligned(4), class align 2) x 3 option sets x "
+             "all 8-9 starts x every sequence of length 1..3 (pure) and of length 2 (observed) over the 7 operations. "
              "Exhaustive for these bounds. A history is non-trivial when start+operations contain at least "
              "one assignment/deletion/keyword/unpack affecting the described or tracked field (i.e. not only reads and packs of "
              "a plain C()); distinct = distinct (class, start, mode, operation sequence).",
     "thorough": "as quick with every operation sequence of length 1..6 (pure) and of length 5 (observed), sharded by "
-                "(class, start, mode, first operation); Part 2 with sequences of length 1..4; Part 3 with sequences of length 1..4 for both outer shapes (instance-prototype outers: Ref 1..4, repeated Ref 1..3). "
+                "(class, start, mode, first operation); Part 2 with sequences of length 1..4; Part 3 with sequences of length 1..4 for both outer shapes (instance-prototype outers: Ref 1..4, repeated Ref 1..3); "
+                "Part 4 with sequences of length 1..5 (pure) and 4 (observed). "
                 "Exhaustive for these bounds. "
                 "Non-trivial as in quick; distinct = distinct (class, start, mode, first<=4 operations (<=3 in Part 2)) groups (the exact number "
                 "of executed histories is in counters histories_pure / histories_observed / two_packet_histories).",
@@ -98,6 +108,8 @@ ASSUMPTIONS = [
     "fresh default Inner; objects passed by keyword are the ones held; n of OuterSeq is a plain Int set by the harness",
     "Ref(Inner(described=k, ...)): the default inner of Outer() is a copy of that prototype and so counts as explicitly assigned "
     "(constructor keyword); sub-packets produced by unpack were never assigned and start automatic",
+    "positioned variants: gaps are filled with b'.' on pack; at(2) is absolute from the start of the data, shift(1) skips one byte, "
+    "aligned(n)/class align pad to the next multiple of n counted from the start of the data (packets are packed/unpacked at offset 0)",
 ]
 
 HEADER = ("from bisturi.packet import Packet\n"
@@ -165,7 +177,56 @@ VARIANTS = [
         # raw length byte 4 -> 2 data bytes but f = 5: the attribute must read 5 (computed), not 4
         "raws": [(b"\x04ab", b"ab", {}), (b"\x05ab", b"ab", {}), (b"\x00", b"", {})],
     },
+    # ---- Part 4: the described field is positioned.  Layout directives: ("at", n) ("shift", k) ("align", n)
+    {
+        "name": "pos_at", "positioned": True,
+        "body": "    length = Int(1).describe(AutoLength('value')).at(2)\n"
+                "    value = Data(length)\n",
+        "described": "length", "tracked": "value", "others": [],
+        "layout": [("at", 2), ("D", 1), ("T",)],
+        "f": _f_len, "tv": [b"ab", b"wxyz!"], "default": b"",
+        "k_incons": 7,
+        "raws": [(b"..\x02ab", b"ab", {}), (b"..\x00", b"", {}), (b"..\x03q\x00r", b"q\x00r", {})],
+    },
+    {
+        "name": "pos_shift", "positioned": True,
+        "body": "    tag = Int(1)\n"
+                "    length = Int(1).describe(AutoLength('value')).shift(1)\n"
+                "    value = Data(length)\n",
+        "described": "length", "tracked": "value", "others": ["tag"],
+        "layout": [("tag", 1), ("shift", 1), ("D", 1), ("T",)],
+        "f": _f_len, "tv": [b"ab", b"wxyz!"], "default": b"",
+        "k_incons": 7,
+        "raws": [(b"\x09.\x02ab", b"ab", {"tag": 9}), (b"\x80.\x00", b"", {"tag": 128})],
+    },
+    {
+        "name": "pos_aligned", "positioned": True,
+        "body": "    tag = Int(1)\n"
+                "    length = Int(2).describe(AutoLength('value')).aligned(4)\n"
+                "    value = Data(length)\n",
+        "described": "length", "tracked": "value", "others": ["tag"],
+        "layout": [("tag", 1), ("align", 4), ("D", 2), ("T",)],
+        "f": _f_len, "tv": [b"ab", b"wxyz!"], "default": b"",
+        "k_incons": 0x0107,
+        "raws": [(b"\x09...\x00\x02ab", b"ab", {"tag": 9}), (b"\x80...\x00\x00", b"", {"tag": 128})],
+    },
+    {
+        "name": "pos_classalign", "positioned": True, "conf_extra": "'align': 2",
+        "body": "    tag = Int(1)\n"
+                "    length = Int(1).describe(AutoLength('value'))\n"
+                "    value = Data(length)\n"
+                "    tail = Int(1)\n",
+        "described": "length", "tracked": "value", "others": ["tag", "tail"],
+        "layout": [("align", 2), ("tag", 1), ("align", 2), ("D", 1), ("align", 2), ("T",), ("align", 2), ("tail", 1)],
+        "f": _f_len, "tv": [b"ab", b"wxyz!"], "default": b"",
+        "k_incons": 7,
+        "raws": [(b"\x09.\x02.ab\x07", b"ab", {"tag": 9, "tail": 7}),
+                 (b"\x80.\x00.\x01", b"", {"tag": 128, "tail": 1}),
+                 (b"\x09.\x03.abc.\x07", b"abc", {"tag": 9, "tail": 7})],
+    },
 ]
+PLAIN_VARIANTS = [v for v in VARIANTS if not v.get("positioned")]
+FILL = b"."
 
 OPS = ("T0", "T1", "D0", "D1", "DEL", "RD", "PK")
 STATE_CHANGING = ("T0", "T1", "D0", "D1", "DEL")
@@ -173,6 +234,9 @@ STATE_CHANGING = ("T0", "T1", "D0", "D1", "DEL")
 
 def class_source(variant, optname, optsrc):
     cname = "C17_%s_%s" % (variant["name"], optname)
+    extra = variant.get("conf_extra")
+    if extra:
+        optsrc = "{" + extra + (", " + optsrc[1:] if optsrc != "{}" else "}")
     src = HEADER + "class %s(Packet):\n    __bisturi__ = %s\n%s" % (cname, optsrc, variant["body"])
     return cname, src
 
@@ -227,6 +291,12 @@ class Ctx:
                 out += int(visible).to_bytes(item[1], "big")
             elif item[0] == "T":
                 out += bytes(tracked)
+            elif item[0] == "at":
+                out += FILL * (item[1] - len(out))
+            elif item[0] == "shift":
+                out += FILL * item[1]
+            elif item[0] == "align":
+                out += FILL * (-len(out) % item[1])
             else:
                 out += int(others[item[0]]).to_bytes(item[1], "big")
         return out
@@ -293,6 +363,8 @@ def execute(ctx, starts, ops, mode, st, states=None):
             st.add("reads_compared")
             if m[5] is False:
                 st.add("reads_after_unpack_before_assignment")
+                if m[4]:
+                    st.add("observed_after_unpack_then_tracked_change")
             if t != m[2] or o != m[3]:
                 return ("tracked/plain field does not read as last assigned or parsed (disturbed by the described-field machinery)",
                         {"step": step, "packet": i, "got": {"tracked": t, "others": o},
@@ -460,6 +532,11 @@ def define_classes(run, scratch, count=True):
                         run.cover("vectorised_pack_lines", "%s/%s: %s" % (v["name"], optname, line.strip()))
                 if "sync_methods[0](pkt)" in text:
                     run.count("generated_code_calls_sync_before_pack")
+                if v.get("positioned"):
+                    for line in text.splitlines():
+                        if "StructUnpack(" in line and "=" in line and v["described"] in line.split("=")[0]:
+                            run.count("positioned_described_struct_coded_generated_unpack")
+                            run.cover("positioned_unpack_lines", "%s/%s: %s" % (v["name"], optname, line.strip()))
     return ctxs
 
 
@@ -539,7 +616,7 @@ def define_nested_classes(run, scratch, count=True):
     from bisturi.packet import Packet
     from .. import render
     out = []
-    for v in VARIANTS:
+    for v in PLAIN_VARIANTS:
         for optname, optsrc in OPTSETS:
             iname, outers, src = nested_module_source(v, optname, optsrc)
             module, path = render.load_source(src, scratch)
@@ -793,6 +870,7 @@ def run(run):
     L2 = 3 if quick else 4
     L3 = {"ref": 3 if quick else 4, "seq": 2 if quick else 4}     # nested part, Ref(Inner)
     L3I = {"ref": 3 if quick else 4, "seq": 2 if quick else 3}    # nested part, Ref(Inner(...)) instance prototypes
+    LP = 3 if quick else 5            # Part 4 (positioned described field): pure histories 1..LP, observed LP-1
     budget = 150.0 if quick else 560.0
     t0 = time.time()
     scratch = common.scratch_dir("bvf_c17_")
@@ -800,6 +878,7 @@ def run(run):
         ctxs = define_classes(run, scratch, count=(shard == 0))
         nctxs = define_nested_classes(run, scratch, count=(shard == 0))
         st = Stats()
+        pst = {"generic": Stats(), "generated": Stats()}     # Part 4 statistics, by code path of the class
         states = set()
 
         # ---- jobs: (part, ctx index, start index, mode, first op index) -------------------------------
@@ -810,6 +889,8 @@ def run(run):
                 for mode in ("pure", "observed"):
                     for fo in range(len(OPS)):
                         jobs.append((1, ci, si, mode, fo))
+            if ctx.v.get("positioned"):
+                continue
             for si in range(3):
                 for fo in range(len(TWO_OPS)):
                     jobs.append((2, ci, si, "pure", fo))
@@ -872,12 +953,18 @@ def run(run):
                 alphabet = tuple((0, op) for op in OPS)
                 lengths = range(1, L + 1) if mode == "pure" else (LOBS,)
                 counter = "histories_pure" if mode == "pure" else "histories_observed"
+                if ctx.v.get("positioned"):
+                    lengths = range(1, LP + 1) if mode == "pure" else (LP - 1,)
+                    counter = "positioned_described_histories"
             else:
                 starts = two_packet_starts(ctx.v)[si]
                 alphabet = TWO_OPS
                 lengths = range(1, L2 + 1)
                 counter = "two_packet_histories"
             first = alphabet[fo]
+            cur_st = st
+            if ctx.v.get("positioned"):
+                cur_st = pst["generic" if ctx.optname == "generic" else "generated"]
             keylen = 4 if part == 1 else 3
             keybase = "%d|%s|%d|%s|" % (part, ctx.cls.__name__, si, mode)
             run.cover("starts", "%s: %s" % (ctx.v["name"], starts))
@@ -892,7 +979,7 @@ def run(run):
                     else:
                         run.case(key=None, nontrivial=False)
                     n_exec += 1
-                    bad = execute(ctx, starts, ops, mode, st, states)
+                    bad = execute(ctx, starts, ops, mode, cur_st, states)
                     if bad is not None:
                         run.violation(bad[0], _witness(ctx, starts, ops, mode, bad[1]), None)
                         if run.counters["violations"] > 20:
@@ -910,6 +997,11 @@ def run(run):
             run.count(counter, n_exec)
             run.count("histories_%s_%s" % (ctx.v["name"], ctx.optname), n_exec)
         st.flush(run)
+        for path, ps in pst.items():
+            run.count("positioned_described_%s_unpack_then_tracked_change" % path,
+                      ps.c.get("observed_after_unpack_then_tracked_change", 0))
+            run.count("positioned_described_packs_with_fill_bytes", ps.c.get("packs_compared", 0))
+            ps.flush(run)
         for s in states:
             run.cover("model_state_x_operation", "explicit=%s consistent=%s tracked_len=%d op=%s" % s)
         if shard == 0:
@@ -919,6 +1011,7 @@ def run(run):
             run.extra["max_nested_history_length"] = dict(L3)
             run.extra["max_nested_history_length_instance_prototype"] = dict(L3I)
             run.extra["operation_alphabet"] = list(OPS)
+            run.extra["max_positioned_history_length"] = LP
             if samples == 0 and ctxs:
                 ctx = ctxs[1]
                 ops = tuple((0, o) for o in ("D1", "PK", "T1", "DEL"))
